@@ -103,6 +103,20 @@ def int_kinds(np):
             ("int-array-element", lambda k: np.arange(k, k + 1)[0])]
 
 
+def narrow_kinds(np):
+    """Spellings that hold the number in a narrow / unsigned numpy integer (samples, MIDI-like codes, table indices) or in
+    an ndarray the caller keeps (0-d array, one-element view of a grid): (label, constructor, fits)."""
+    out = []
+    for nm in ("int8", "uint8", "int16", "uint16", "uint32"):
+        info = np.iinfo(nm)
+        out.append(("np." + nm, (lambda k, t=getattr(np, nm): t(k)), (lambda k, i=info: i.min <= k <= i.max)))
+        out.append(("0-d %s array" % nm, (lambda k, nm=nm: np.array(k, dtype=nm)), (lambda k, i=info: i.min <= k <= i.max)))
+    out.append(("0-d float64 array", lambda k: np.array(float(k)), lambda k: True))
+    out.append(("one-element float64 view", lambda k: np.array([0.0, float(k), 0.0])[1:2], lambda k: True))
+    out.append(("read-only 0-d float64 array", lambda k: (lambda a: (a.setflags(write=False), a)[1])(np.array(float(k))), lambda k: True))
+    return out
+
+
 def search(ctx, scales_mod, np):
     """Direct executable statement of the property on the implementation."""
     bad = []
@@ -167,6 +181,33 @@ def search(ctx, scales_mod, np):
                         chk("integer_argument_increasing", got > prev[1], dict(det, previous_argument=prev[0], previous_result=prev[1]))
                     prev = (k, got)
                     ctx.count("search:int-typed-%s-%s" % (name, direction))
+        if name == "octave" or not all(isinstance(v, float) for v in params.values()):
+            # 2 ** k in a narrow integer type, or a narrow unsigned argument meeting an integer-typed parameter, overflows
+            # inside numpy itself: not a question about this library
+            return
+        small_hz = sorted(set([h for h in hz if h <= 65535] + [f_lo, f_lo + 1, 100, 127, 200, 255, 1000, 30807, 30808, 31004, 63575, 63576, 65535]))
+        small_hz = [f for f in small_hz if f >= f_lo]
+        for kind, conv, fits in narrow_kinds(np):
+            for direction, fn, args in (("hertz_to_scale", s.hertz_to_scale, small_hz), ("scale_to_hertz", s.scale_to_hertz, [k for k in ks if k >= 0] + [0, 2, 3, 20, 21, 27])):
+                inv = s.scale_to_hertz if direction == "hertz_to_scale" else s.hertz_to_scale
+                for k in sorted(set(args)):
+                    if not fits(k) or (direction == "scale_to_hertz" and not (k_lo <= k <= k_hi)):
+                        continue
+                    det = dict(scale=name, params=params, function=direction, argument=k, argument_type=kind)
+                    want = float(fn(float(k)))
+                    arg = conv(k)
+                    try:
+                        got = float(np.asarray(fn(arg)).reshape(-1)[0])
+                        again = float(np.asarray(fn(arg)).reshape(-1)[0])
+                    except Exception as e:  # the float argument is accepted
+                        chk("integer_argument_raises", False, dict(det, error=repr(e), result_for_float=want))
+                        continue
+                    det.update(result=got, result_for_float=want)
+                    chk("integer_argument_like_float", abs(got - want) <= tol * max(1.0, abs(want)), det)
+                    chk("same_argument_asked_twice", got == again, dict(det, second_result=again))
+                    if isinstance(arg, np.ndarray):
+                        chk("argument_array_modified", float(arg.reshape(-1)[0]) == float(k), dict(det, argument_after_the_call=float(arg.reshape(-1)[0])))
+                    ctx.count("search:narrow-typed-%s-%s" % (name, direction))
 
     for name, ctor in mk.items():
         for rep in range(ctx.scale(6, 40)):
